@@ -244,3 +244,5 @@ def r3_6(cx):
 
 
 RULES = [('R3.1', r3_1), ('R3.2', r3_2), ('R3.3', r3_3), ('R3.4', r3_4), ('R3.5', r3_5), ('R3.6', r3_6)]
+RULES.append(('R3.7', scan_rule(('owning_iovec::implementation::', 'owning_iovec::global_deque::'))))
+FLOORS['R3.7'] = 1
